@@ -58,7 +58,7 @@ def gen(tier, rng, shard, nshards):
             m, n = n, m
         node = W.direct_only(S.gen_tree(rng, int(S.pick(rng, [0, 0, 1, 1, 2])), o, (m, n)))
         if m == n and rng.random() < 0.05:
-            node = W.gen_routine_directed(rng, S.pick(rng, ["f8", "c16", "f4"]), m)
+            node = W.direct_only(W.gen_routine_directed(rng, S.pick(rng, ["f8", "c16", "f4"]), m))
         declared = m == n and rng.random() < 0.15
         if declared:
             # a (truthfully) declared self-adjoint / positive-definite operator: sub-operators must not inherit the declaration
